@@ -465,7 +465,9 @@ func genPowerLoss(prop string) func(r *rng, tier string, res *Result) {
 // Close (WriteAt / Sync / Truncate on an open file) fails once, for every k; when Close nevertheless
 // returns nil, power fails right away and every admissible image must reopen to the closed contents.
 func c09CloseFaults(r *rng, tier string, res *Result) {
-	for _, syncMode := range []bool{false, true} {
+	for _, fam := range []string{"data", "fs", "data-sync", "fs-sync"} {
+		syncMode := strings.HasSuffix(fam, "-sync")
+		fsLevel := strings.HasPrefix(fam, "fs") // a call on the file system itself (OpenFile / Stat / Remove / Rename) fails
 		for k := 0; k < 60; k++ {
 			t := tfs.New()
 			o := &pogreb.Options{FileSystem: t}
@@ -494,12 +496,19 @@ func c09CloseFaults(r *rng, tier string, res *Result) {
 					delete(ref, string(keys[i]))
 				}
 			}
-			t.FailWriteCall = t.WriteCalls + k
+			if fsLevel {
+				t.FailCall = t.Calls + k
+			} else {
+				t.FailWriteCall = t.WriteCalls + k
+			}
 			cerr := db.Close()
 			reached := t.WriteCalls > t.FailWriteCall
-			t.FailWriteCall = -1
+			if fsLevel {
+				reached = t.Calls > t.FailCall
+			}
+			t.FailWriteCall, t.FailCall = -1, -1
 			if !reached {
-				break // Close makes fewer than k data calls: all injection points done
+				break // Close makes fewer than k such calls: all injection points done
 			}
 			res.Tags["close_fault_injection_points"]++
 			if cerr != nil {
@@ -517,7 +526,7 @@ func c09CloseFaults(r *rng, tier string, res *Result) {
 					why = oracle.check(got, keys)
 				}
 				if why != "" {
-					res.Findings = append(res.Findings, &Finding{Kind: "spec", Case: fmt.Sprintf("C09/close-fault/%v/%d", syncMode, k),
+					res.Findings = append(res.Findings, &Finding{Kind: "spec", Case: fmt.Sprintf("C09/close-fault/%s/%d", fam, k),
 						Cmd:      fmt.Sprintf("Close with its data call number %d (WriteAt/Sync/Truncate on an open file) failing once returned nil; power failure right after", k),
 						Impl:     []string{why},
 						Expected: []string{"after Close returns nil the next Open yields exactly the closed contents"},
@@ -537,7 +546,9 @@ func c09CloseFaults(r *rng, tier string, res *Result) {
 // value of its last ACKNOWLEDGED write, or -- for a key whose write reported the error -- possibly
 // the value of that write.
 func c06WriteFaults(r *rng, tier string, res *Result) {
-	for _, syncMode := range []bool{false, true} {
+	for _, fam := range []string{"data", "fs", "data-sync", "fs-sync"} {
+		syncMode := strings.HasSuffix(fam, "-sync")
+		fsLevel := strings.HasPrefix(fam, "fs")
 		for k := 0; k < 80; k++ {
 			t := tfs.New()
 			o := &pogreb.Options{FileSystem: t}
@@ -591,8 +602,15 @@ func c06WriteFaults(r *rng, tier string, res *Result) {
 				return
 			}
 			prog = append(prog, "sync -> ok")
-			// the faulty stretch
-			t.FailWriteCall = t.WriteCalls + k
+			// the faulty stretch: one data call on an open file fails (WriteAt / Sync / Truncate), or -- second
+			// family -- one call on the file system itself (OpenFile / Stat / Remove / Rename / ReadDir: the
+			// creation of the next segment, the removal of a compacted one, ...)
+			callsBefore := t.Calls
+			if fsLevel {
+				t.FailCall = t.Calls + k
+			} else {
+				t.FailWriteCall = t.WriteCalls + k
+			}
 			nops := 30
 			for i := 0; i < nops; i++ {
 				op(i)
@@ -604,12 +622,19 @@ func c06WriteFaults(r *rng, tier string, res *Result) {
 				}
 			}
 			reached := t.WriteCalls > t.FailWriteCall
-			t.FailWriteCall = -1
+			if fsLevel {
+				reached = t.Calls > t.FailCall
+				_ = callsBefore
+			}
+			t.FailWriteCall, t.FailCall = -1, -1
 			if !reached {
 				_ = db.Close()
-				break // fewer than k data calls in the stretch: all injection points done
+				break // fewer than k such calls in the stretch: all injection points done
 			}
 			res.Tags["write_fault_injection_points"]++
+			if fsLevel {
+				res.Tags["file_system_call_fault_injection_points"]++
+			}
 			for i := 0; i < 4+r.intn(6); i++ {
 				op(i)
 			}
@@ -632,8 +657,12 @@ func c06WriteFaults(r *rng, tier string, res *Result) {
 					why = oracle.check(got, keys)
 				}
 				if why != "" {
-					res.Findings = append(res.Findings, &Finding{Kind: "spec", Case: fmt.Sprintf("C06/write-fault/%v/%d", syncMode, k),
-						Cmd:      fmt.Sprintf("data call number %d after the first Sync (WriteAt/Sync/Truncate on an open file) fails once; a later Sync returns nil; power failure", k),
+					kind := "data call (WriteAt/Sync/Truncate on an open file)"
+					if fsLevel {
+						kind = "file-system call (OpenFile/Stat/Remove/Rename/ReadDir)"
+					}
+					res.Findings = append(res.Findings, &Finding{Kind: "spec", Case: fmt.Sprintf("C06/write-fault/%s/%d", fam, k),
+						Cmd:      fmt.Sprintf("%s number %d after the first Sync fails once; a later Sync returns nil; power failure", kind, k),
 						Impl:     []string{why},
 						Expected: []string{"every key holds its value as of the last completed Sync (acknowledged writes; a write that reported the error may or may not count)"},
 						Program:  prog})
